@@ -226,6 +226,7 @@ class LifeCycle:
                         and (receiver(st.value) or '').endswith('.child_end') and (receiver(st.value) or '').startswith('self.'):
                     for n in [x for x in g.nodes if x.stmt is st and x.part == 'post']:
                         self.sync_nodes.append(n)
+        self._recorders_via_helpers(kind)
         if not self.sync_nodes:
             raise AnalysisError(f'{self.cls.name}: start-up sync point of the child-main {self.main.short} not found')
         # control thread (injector) of process / remote kinds
@@ -249,6 +250,47 @@ class LifeCycle:
         # do_work call nodes
         self.work_nodes = [n for n in g.nodes if n.kind == 'stmt' and n.part in ('eval',) and any(last_attr(c) == 'do_work' and receiver(c) == 'self' for c in n.calls())]
         self.cleanup_nodes = [n for n in g.nodes if n.kind == 'stmt' and n.part in ('eval',) and any(last_attr(c) == '_cleanup' and receiver(c) == 'self' for c in n.calls())]
+
+    def _recorders_via_helpers(self, kind):
+        """a recorder extracted into a helper method: `self._report(False, e)` whose body stores / sends the pair"""
+        if kind == 'remote':
+            return
+        g = self.g
+        for st in walk_local(self.main.node):
+            call = st.value if isinstance(st, ast.Expr) and isinstance(st.value, ast.Call) else None
+            if call is None or receiver(call) != 'self':
+                continue
+            _, callee = self.cls.resolve(last_attr(call))
+            if callee is None or callee.name in ('do_work', '_cleanup', '_init_child'):
+                continue
+            binding = {}
+            params = [p_ for p_ in callee.params if p_ != 'self']
+            for p_, a in zip(params, call.args):
+                binding[p_] = a
+            for k in call.keywords:
+                if k.arg:
+                    binding[k.arg] = k.value
+            for cs in walk_local(callee.node):
+                pair = None
+                how = None
+                if kind == 'thread' and isinstance(cs, ast.Assign) and len(cs.targets) == 1 and is_self_attr(cs.targets[0], self.slot) and isinstance(cs.value, ast.Tuple) and len(cs.value.elts) == 2:
+                    pair, how = cs.value, 'store'
+                if kind == 'process' and isinstance(cs, ast.Expr) and isinstance(cs.value, ast.Call) and last_attr(cs.value) in ('put', 'send') and \
+                        (receiver(cs.value) or '').startswith(f'self.{self.outcome_channel}.') and cs.value.args and isinstance(cs.value.args[0], ast.Tuple) \
+                        and len(cs.value.args[0].elts) == 2 and isinstance(cs.value.args[0].elts[0], ast.Tuple) and len(cs.value.args[0].elts[0].elts) == 2:
+                    pair, how = cs.value.args[0].elts[0], 'send'
+                if pair is None:
+                    continue
+
+                def subst(x):
+                    return binding.get(x.id, x) if isinstance(x, ast.Name) else x
+                fl, pl = subst(pair.elts[0]), subst(pair.elts[1])
+                if not (isinstance(fl, ast.Constant) and isinstance(fl.value, bool)):
+                    continue
+                for n in [x for x in g.nodes if x.stmt is st and x.part == 'post']:
+                    self.recorders.append(Recorder(n, how, fl.value, pl, st, call=call))
+                    if how == 'send':
+                        self.state_sends.append((n, subst(cs.value.args[0].elts[1])))
 
     def _compute_capable(self):
         """Nodes at which an asynchronous WorkerTerminatedError can still arrive (the injector may be alive)."""
